@@ -140,7 +140,7 @@ class C16(Check):
             # values that are different but print alike (1 / '1', 2.5 / '2.5', a tuple / its text)
             return Model(derive=("Select",), qmds=[(("a", 1),), (("a", "1"),), (("a", 2.5),), (("a", "2.5"),), (("a", (1, 2)),),
                                                     (("a", "(1, 2)"),)], execs=(), roots=(1, 0))
-        return Model(derive=("Select",), qmds=QMDS[:3] + QMDS[4:5] + QMDS[6:7], execs=(), roots=(1, 0))
+        return Model(derive=("Select",), qmds=QMDS[:5] + QMDS[6:7], execs=(), roots=(1, 0))
 
     def run_prefix(self, payload):
         mname, depth, prefix = payload
